@@ -6,10 +6,7 @@ import (
 	"strings"
 	"testing"
 
-	"github.com/cube2222/octosql/execution"
-	"github.com/cube2222/octosql/logical"
 	"github.com/cube2222/octosql/octosql"
-	"github.com/cube2222/octosql/physical"
 	"pgregory.net/rapid"
 
 	"verifharness/eng"
@@ -355,41 +352,8 @@ func strictCases() []c11Strict {
 	return full
 }
 
-// evalFunction typechecks fn(x0..xn) with xi : T_i | NULL through the real logical typechecker, materialises it
-// with the real physical.Materialize and evaluates it on the given run-time values.
 func evalFunction(fn string, staticTypes []octosql.Type, values []octosql.Value) (octosql.Value, octosql.Type, error) {
-	env := eng.Env(nil)
-	fields := make([]physical.SchemaField, len(staticTypes))
-	mapping := map[string]string{}
-	args := make([]logical.Expression, len(staticTypes))
-	for i, t := range staticTypes {
-		name := fmt.Sprintf("x%d", i)
-		fields[i] = physical.SchemaField{Name: name + "_u", Type: t}
-		mapping[name] = name + "_u"
-		args[i] = logical.NewVariable(name)
-	}
-	penv := env.WithRecordSchema(physical.Schema{Fields: fields, TimeField: -1})
-	var pe physical.Expression
-	var perr error
-	func() {
-		defer func() {
-			if r := recover(); r != nil {
-				perr = fmt.Errorf("typecheck: %v", r)
-			}
-		}()
-		pe = logical.NewFunctionExpression(fn, args).Typecheck(eng.Context(), penv, logical.Environment{
-			UniqueVariableNames: &logical.VariableMapping{Mapping: mapping}, UniqueNameGenerator: map[string]int{},
-		})
-	}()
-	if perr != nil {
-		return octosql.Value{}, octosql.Type{}, perr
-	}
-	ee, err := pe.Materialize(eng.Context(), penv)
-	if err != nil {
-		return octosql.Value{}, pe.Type, err
-	}
-	v, err := ee.Evaluate(execution.ExecutionContext{Context: eng.Context(), VariableContext: (*execution.VariableContext)(nil).WithRecord(execution.Record{Values: values})})
-	return v, pe.Type, err
+	return eng.EvalFunction(fn, staticTypes, values)
 }
 
 func c11StrictProp(c c11Strict) ev.Outcome {
@@ -420,14 +384,7 @@ func c11StrictProp(c c11Strict) ev.Outcome {
 	return o
 }
 
-func nullableOf(t octosql.Type) octosql.Type {
-	if t.TypeID == octosql.TypeIDNull {
-		return t
-	}
-	u := octosql.Type{TypeID: octosql.TypeIDUnion}
-	u.Union.Alternatives = []octosql.Type{octosql.Null, t}
-	return u
-}
+func nullableOf(t octosql.Type) octosql.Type { return eng.Nullable(t) }
 
 type c11IsNull struct {
 	V      gen.JV `json:"v"`
